@@ -151,6 +151,9 @@ def run_schedule(schedule):
                 if pending_drains:
                     k = ev[1] % len(pending_drains)
                     pending_drains.pop(k)[1].set_result(None)
+            elif ev[0] == "wait":
+                # latency in (virtual) time, not only in scheduling steps: a peer that stops reading for a while
+                await asyncio.sleep(ev[1])
             await settle()
         # let everything finish: complete all latencies
         for _ in range(60):
@@ -165,7 +168,8 @@ def run_schedule(schedule):
             if t is not asyncio.current_task():
                 t.cancel()
 
-    asyncio.run(main())
+    import slevel
+    slevel.vrun(lambda loop: main())      # virtual time: waiting costs nothing
     return dict(queued=queued, direct=direct, writes=[m for (_, m) in sockets_writes], created=len(sockets),
                 one_socket=all(n == 0 for (n, _) in sockets_writes), actions=actions)
 
@@ -196,6 +200,10 @@ def gen_schedules(tier, rng):
             if tier == "quick" and (sum(perm) % 7) not in (0, 3):
                 continue       # a fixed 2/7 slice of the permutations in the quick tier
             out.append([base[i] for i in perm])
+    # a slow peer: queued messages, the socket exists, a long pause while a drain is pending, then everything completes
+    for pause in (0.5, 1.5, 5.0, 60.0):
+        for nq in (1, 2, 4):
+            out.append([("factory",)] + [("queue", i + 1) for i in range(nq)] + [("wait", pause), ("drain", 0), ("queue", 9), ("wait", pause), ("drain", 0)])
     for _ in range({"quick": 300, "thorough": 6000}[tier]):
         s = []
         mid = [100]
@@ -212,6 +220,8 @@ def gen_schedules(tier, rng):
                 s.append(("spawn", ms))
             elif x < 0.6:
                 s.append(("factory",))
+            elif x < 0.66:
+                s.append(("wait", rng.choice([0.5, 1.5, 3.0, 20.0])))
             else:
                 s.append(("drain", rng.randint(0, 3)))
         out.append(s)
